@@ -15,6 +15,31 @@ OPS = [("or", "||", "OR"), ("and", "&&", "AND"), ("bitor", "|", "BITOR"), ("bitx
 def hx(s): return s.encode().hex()
 
 
+UB_PROBES = [  # (store, expression, expected result of 32 bit wrap-around arithmetic)
+    ("a=2147483647,b=1", "a + b", "v:-2147483648"), ("a=-2147483647,b=2", "a - b", "v:2147483647"),
+    ("a=65536,b=65536", "a * b", "v:0"), ("a=2147483647,b=3", "a * b", "v:2147483645"),
+    ("a=-2147483647,b=1", "-(a - b)", "v:-2147483648"), ("a=-2147483647,b=1,c=-1", "(a - b) / c", "v:-2147483648"),
+    ("a=-2147483647,b=1,c=-1", "(a - b) % c", "v:0"), ("a=1,b=31", "a << b", "v:-2147483648"), ("a=3,b=31", "a << b", "v:-2147483648"),
+    ("a=1,b=32", "a << b", "err"), ("a=1,b=-1", "a << b", "err"), ("a=1,b=32", "a >> b", "err"), ("a=-8,b=1", "a >> b", "v:-4"),
+]
+
+
+LAST_UB = []
+
+
+def probe_ub(harness):
+    """on a sanitizer build undefined behaviour ends the child: anything but the expected line counts as 'does not wrap'"""
+    lines = ["%s|e:%s" % (st, hx(ex)) for st, ex, _ in UB_PROBES]
+    p = subprocess.run([harness, "promela"], input="".join(l + "\n" for l in lines), stdout=subprocess.PIPE, stderr=subprocess.DEVNULL,
+                       universal_newlines=True, env=dict(os.environ, USCXML_NOCACHE_FILES="1", ASAN_OPTIONS="detect_leaks=0"))
+    out = p.stdout.split("\n")[:-1]
+    if len(out) != len(lines): raise RuntimeError("overflow probe failed: %d/%d" % (len(out), len(lines)))
+    global LAST_UB
+    LAST_UB = out
+    bad = [(ex, o) for (st, ex, w), o in zip(UB_PROBES, out) if not (o == w or (w == "err" and o.startswith("err")))]
+    return not bad, bad
+
+
 def probe(harness):
     lines, keys = [], []
     for a in OPS:
@@ -36,8 +61,9 @@ def probe(harness):
     return dict(zip(keys, out)), dict(zip(keys, lines))
 
 
-def generate(harness, path):
+def generate(harness, path, ub_harness=None):
     res, req = probe(harness)
+    wraps, ub_bad = probe_ub(ub_harness or harness)
     red, mf, bf, impl = [], [], [], []
     for a in OPS:
         row = []
@@ -70,10 +96,11 @@ def generate(harness, path):
     txt += "def bangFirstM : List Bool := [" + ", ".join(bl(x) for x in bf) + "]\n"
     txt += "def hasOpM : List Bool := [" + ", ".join(bl(x) for x in impl) + "]\n\n"
     txt += "def probedTable : PrecTable where\n  reduceFirst o1 o2 := (reduceFirstM.getD o1.idx []).getD o2.idx false\n  minusFirst o := minusFirstM.getD o.idx false\n  bangFirst o := bangFirstM.getD o.idx false\n\n"
-    txt += "def probedImpl : Impl where\n  hasOp o := hasOpM.getD o.idx false\n  hasUnaryMinus := %s\n  checksZeroDivisor := %s\n  checksNegativeIndex := %s\n\n" % (bl(um), bl(z), bl(ni))
+    txt += "def probedImpl : Impl where\n  hasOp o := hasOpM.getD o.idx false\n  hasUnaryMinus := %s\n  checksZeroDivisor := %s\n  checksNegativeIndex := %s\n  wrapsOverflow := %s\n\n" % (bl(um), bl(z), bl(ni), bl(wraps))
     txt += "end UscxmlVerif.Generated.PromelaPrec\n"
     old = open(path).read() if os.path.exists(path) else None
     if old != txt: open(path, "w").write(txt)
+    res[('ub',)] = ub_bad
     return res
 
 
